@@ -36,50 +36,76 @@ def impl_framing(arg):
     from dpapi_ng._rpc import _client as C
     from dpapi_ng._rpc._verification import VerificationTrailer
 
-    flavour, auth, sign, sig_len, ptype, seq, ctx_id, opnum, stub, vt = arg
+    flavour, auth, sign, sig_len, ptype, seq, reqs = arg
     prov = toyctx.make_provider(ptype, sig_len, send_seq=seq) if auth else None
-    vt_obj = None
-    if vt is not None:
-        vt_obj = VerificationTrailer.unpack(bytes(vt))
-        if vt_obj.pack() != bytes(vt):
+
+    def vt_of(vt):
+        if vt is None:
+            return None
+        o = VerificationTrailer.unpack(bytes(vt))
+        if o.pack() != bytes(vt):
             raise RuntimeError("verification trailer does not round trip")
+        return o
+
+    outs = []
+
+    def record(sent_before, sent, err):
+        new = sent[sent_before:]
+        if err is not None:
+            outs.append(err)
+            return
+        if len(new) != 1:
+            outs.append(Err("ValueError"))
+            return
+        wa = None
+        if prov:
+            calls = prov.ctx.wrap_calls
+            if len(calls) != len([o for o in outs if not isinstance(o, Err)]) + 1 or not calls[-1][4]:
+                outs.append([new[0], Err("TypeError")])
+                return
+            wa = calls[-1][:4]
+        outs.append([new[0], wa])
+
+    from ..core import classify
+
     if flavour == 0:
-        sock = ScriptSock(b"", [], budget=50)
+        sock = ScriptSock(b"", [], budget=50 * (len(reqs) + 1))
         c = C.SyncRpcClient(sock, prov)
         c._sign_header = bool(sign)
-        try:
-            c.request(ctx_id, opnum, bytes(stub), verification_trailer=vt_obj)
-        except EOFError:
-            pass
-        sent = sock.sent
-    else:
-        async def run():
-            reader = asyncio.StreamReader()
-            reader.feed_eof()
-            w = _Writer()
-            w.sent = []
-            w.write = lambda b: w.sent.append(bytes(b))
-            c = C.AsyncRpcClient(reader, w, prov)
-            c._sign_header = bool(sign)
+        for ctx_id, opnum, stub, vt in reqs:
+            n0, err = len(sock.sent), None
             try:
-                await c.request(ctx_id, opnum, bytes(stub), verification_trailer=vt_obj)
+                c.request(ctx_id, opnum, bytes(stub), verification_trailer=vt_of(vt))
+            except EOFError:
+                pass
+            except Exception as exc:  # noqa: BLE001
+                err = classify(exc)
+            record(n0, sock.sent, err)
+        return outs
+
+    async def run():
+        reader = asyncio.StreamReader()
+        reader.feed_eof()
+        w = _Writer()
+        w.sent = []
+        w.write = lambda b: w.sent.append(bytes(b))
+        c = C.AsyncRpcClient(reader, w, prov)
+        c._sign_header = bool(sign)
+        for ctx_id, opnum, stub, vt in reqs:
+            n0, err = len(w.sent), None
+            try:
+                await c.request(ctx_id, opnum, bytes(stub), verification_trailer=vt_of(vt))
             except (EOFError, asyncio.IncompleteReadError):
                 pass
-            return w.sent
+            except Exception as exc:  # noqa: BLE001
+                err = classify(exc)
+            record(n0, w.sent, err)
 
-        sent = asyncio.run(run())
-    if len(sent) != 1:
-        return Err("ValueError")
-    wa = None
-    if prov:
-        calls = prov.ctx.wrap_calls
-        if len(calls) != 1 or not calls[0][4]:
-            return [sent[0], Err("TypeError")]
-        wa = calls[0][:4]
-    return [sent[0], wa]
+    asyncio.run(run())
+    return outs
 
 
-def pred(arg, out):
+def pred_one(arg, out):
     """Independent receiver written from the DCE/RPC connection-oriented PDU layout."""
     flavour, auth, sign, sig_len, ptype, seq, ctx_id, opnum, stub, vt = arg
     if out is None or isinstance(out, Err):
@@ -135,9 +161,26 @@ def pred(arg, out):
     return None
 
 
+def pred(arg, out):
+    flavour, auth, sign, sig_len, ptype, seq, reqs = arg
+    if out is None or isinstance(out, Err) or len(out) != len(reqs):
+        return f"requests failed: {str(out)[:80]}"
+    s = seq
+    for (ctx_id, opnum, stub, vt), o in zip(reqs, out):
+        why = pred_one([flavour, auth, sign, sig_len, ptype, s, ctx_id, opnum, stub, vt], o)
+        if isinstance(o, Err) and o.name == "OverflowError" and len(stub) > 65000:
+            continue  # does not fit one fragment: refused before anything is sealed or sent
+        if why:
+            return f"request with a {len(stub)}-byte stub: {why}"
+        if auth:
+            s += 1
+    return None
+
+
 def gen_cases(ctx: Ctx):
+    """Each case is a sequence of requests on ONE client (the provider caches per-connection state)."""
     vt = _vt_bytes()
-    cases = []
+    singles = []
     k = 0
     for n in range(0, 321):
         stub = bytes((i * 7 + n) % 256 for i in range(n))
@@ -147,10 +190,25 @@ def gen_cases(ctx: Ctx):
                     k += 1
                     if not ctx.thorough and k % 3:
                         continue
-                    cases.append([k % 2, 1, sign, sig_len, [10, 9, 16][k % 3], k % 5, k % 3, k % 4, stub, vt if use_vt else None])
-        cases.append([n % 2, 0, 0, 0, 0, 0, 0, 1, stub, vt if n % 2 else None])
-    cases.append([0, 1, 1, 16, 10, 0, 65535, 65535, b"\x01" * 5, vt])
-    cases.append([0, 1, 1, 16, 10, 0, 0, 0, b"\x01" * 65600, None])  # frag_len does not fit 16 bits: OverflowError on both sides
+                    singles.append((k % 2, 1, sign, sig_len, [10, 9, 16][k % 3], k % 5, [k % 3, k % 4, stub, vt if use_vt else None]))
+    cases = []
+    # group consecutive singles with the same connection parameters into sequences of 1..4 requests
+    by = {}
+    for fl, auth, sign, sig_len, ptype, seq, req in singles:
+        by.setdefault((fl, auth, sign, sig_len, ptype), []).append(req)
+    for (fl, auth, sign, sig_len, ptype), reqs in sorted(by.items()):
+        i = 0
+        g = 0
+        while i < len(reqs):
+            g += 1
+            m = 1 + g % 4
+            cases.append([fl, auth, sign, sig_len, ptype, g % 5, reqs[i : i + m]])
+            i += m
+    for n in range(0, 321, 1 if ctx.thorough else 4):
+        stub = bytes((i * 7 + n) % 256 for i in range(n))
+        cases.append([n % 2, 0, 0, 0, 0, 0, [[0, 1, stub, vt if n % 2 else None], [1, 2, stub[::-1], None]]])
+    cases.append([0, 1, 1, 16, 10, 0, [[65535, 65535, b"\x01" * 5, vt]]])
+    cases.append([0, 1, 1, 16, 10, 0, [[0, 0, b"\x01" * 65600, None], [0, 0, b"ok", None]]])  # frag_len does not fit 16 bits: OverflowError, then a good one
     return cases
 
 
@@ -211,10 +269,8 @@ def search(ctx: Ctx):
     full = Ctx(ctx.prop, "thorough", ctx.seed)
     for c in gen_cases(full):
         tried += 1
-        if tried % 2 and not ctx.thorough:
-            continue
         why = pred(c, dec(run_impl(impl_framing, c)))
-        if why and "OverflowError" not in why:
+        if why and "65600-byte" not in why:
             return {"unit": "framing.request", "input": enc(c)[:4000], "why": why, "tried": tried, "key": None}
     for u in units(ctx)[1:]:
         for c in u.cases:
